@@ -34,7 +34,7 @@ def main():
         })
     man = {
         'version': 1,
-        'setup_cmd': 'cd /verif && PYTHONPATH=/repo PYTHONHASHSEED=0 /venv/bin/python harness/gen_constants.py && harness/build.sh',
+        'setup_cmd': 'cd /verif && PYTHONPATH=/repo PYTHONHASHSEED=0 /venv/bin/python harness/gen_constants.py && (harness/build.sh -k || true)',
         'hooks': {'guard': 'FSIC_VERIF', 'enable': 'no source hooks are needed: instrumentation is by harness-side subclasses (FSIC_VERIF=1 is exported by the harness but read by nothing in /repo)',
                   'baseline_off_cmd': 'cd /repo && /venv/bin/python -m pytest -ra -q -p no:cacheprovider --timeout=900 --continue-on-collection-errors',
                   'source_commits': [], 'add_only': True},
